@@ -39,6 +39,7 @@ fn run_check(id: &str, rep: &mut Report) -> bool {
         "C06" => checks::c06::run(rep),
         "C07" => checks::c07::run(rep),
         "C08" => checks::c08::run(rep),
+        "C18" => checks::c18::run(rep),
         "C19" => checks::c19::run(rep),
         "C20" => checks::c20::run(rep),
         _ => return false,
@@ -105,6 +106,7 @@ fn main() {
                 "C06" => checks::c06::replay(&v["case"], &mut rep),
                 "C07" => checks::c07::replay(&v["case"], &mut rep),
                 "C08" => checks::c08::replay(&v["case"], &mut rep),
+                "C18" => checks::c18::replay(&v["case"], &mut rep),
                 "C19" => checks::c19::replay(&v["case"], &mut rep),
                 "C20" => checks::c20::replay(&v["case"], &mut rep),
                 _ => {
